@@ -4,6 +4,8 @@ import (
 	"context"
 	"sync"
 	"sync/atomic"
+
+	"github.com/feichai0017/NoKV/verifhook"
 )
 
 const defaultWatermarkWindow = 1 << 16
@@ -52,6 +54,7 @@ func (w *WaterMark) Init(closer *Closer) {
 // Begin sets the last index to the given value.
 func (w *WaterMark) Begin(index uint64) {
 	w.setLastIndex(index)
+	verifhook.Yield(w, "wm.begin.published")
 	w.addIndex(index, 1)
 }
 
@@ -62,6 +65,7 @@ func (w *WaterMark) BeginMany(indices []uint64) {
 	}
 	w.setLastIndex(indices[len(indices)-1])
 	for _, idx := range indices {
+		verifhook.Yield(w, "wm.beginmany.next")
 		w.addIndex(idx, 1)
 	}
 }
@@ -74,6 +78,7 @@ func (w *WaterMark) Done(index uint64) {
 // DoneMany works like Done but accepts multiple indices.
 func (w *WaterMark) DoneMany(indices []uint64) {
 	for _, idx := range indices {
+		verifhook.Yield(w, "wm.donemany.next")
 		w.addIndex(idx, -1)
 	}
 }
@@ -88,6 +93,7 @@ func (w *WaterMark) DoneUntil() uint64 {
 // less than or equal to it are done.
 func (w *WaterMark) SetDoneUntil(val uint64) {
 	prev := atomic.SwapUint64(&w.doneUntil, val)
+	verifhook.BeforeLock(&w.mu)
 	w.mu.Lock()
 	w.notifyWaitersLocked(prev, val)
 	w.mu.Unlock()
@@ -109,6 +115,7 @@ func (w *WaterMark) WaitForMark(ctx context.Context, index uint64) error {
 	if w.DoneUntil() >= index {
 		return nil
 	}
+	verifhook.BeforeLock(&w.mu)
 	w.mu.Lock()
 	if w.DoneUntil() >= index {
 		w.mu.Unlock()
@@ -134,16 +141,19 @@ func (w *WaterMark) addIndex(index uint64, delta int32) {
 		return
 	}
 	win := w.ensureWindow(index)
+	verifhook.Yield(win, "wm.add.window")
 	offset := index - win.base
 	if offset < uint64(len(win.slots)) {
 		win.slots[offset].Add(delta)
 	}
+	verifhook.Yield(win, "wm.add.added")
 	w.tryAdvance()
 }
 
 func (w *WaterMark) setLastIndex(index uint64) {
 	for {
 		cur := atomic.LoadUint64(&w.lastIndex)
+		verifhook.Yield(w, "wm.last.loaded")
 		if index <= cur {
 			return
 		}
@@ -156,12 +166,15 @@ func (w *WaterMark) setLastIndex(index uint64) {
 func (w *WaterMark) tryAdvance() {
 	for {
 		doneUntil := w.DoneUntil()
+		verifhook.Yield(w, "wm.adv.done-loaded")
 		lastIndex := w.LastIndex()
+		verifhook.Yield(w, "wm.adv.last-loaded")
 		if doneUntil >= lastIndex {
 			return
 		}
 		next := doneUntil + 1
 		win := w.loadWindow()
+		verifhook.Yield(win, "wm.adv.window-loaded")
 		if next < win.base || next >= win.base+uint64(len(win.slots)) {
 			w.ensureWindow(next)
 			continue
@@ -170,7 +183,9 @@ func (w *WaterMark) tryAdvance() {
 		if win.slots[offset].Load() > 0 {
 			return
 		}
+		verifhook.Yield(win, "wm.adv.slot-zero")
 		if atomic.CompareAndSwapUint64(&w.doneUntil, doneUntil, next) {
+			verifhook.Yield(w, "wm.adv.advanced")
 			w.notifyWaiters(doneUntil, next)
 			continue
 		}
@@ -188,6 +203,7 @@ func (w *WaterMark) notifyWaitersLocked(_ uint64, until uint64) {
 }
 
 func (w *WaterMark) notifyWaiters(prev, until uint64) {
+	verifhook.BeforeLock(&w.mu)
 	w.mu.Lock()
 	w.notifyWaitersLocked(prev, until)
 	w.mu.Unlock()
@@ -198,6 +214,8 @@ func (w *WaterMark) ensureWindow(index uint64) *watermarkWindow {
 	if index >= win.base && index < win.base+uint64(len(win.slots)) {
 		return win
 	}
+	verifhook.Yield(w, "wm.ensure.miss")
+	verifhook.BeforeLock(&w.mu)
 	w.mu.Lock()
 	defer w.mu.Unlock()
 	win = w.loadWindow()
@@ -211,6 +229,7 @@ func (w *WaterMark) ensureWindow(index uint64) *watermarkWindow {
 // rebuildWindowLocked resizes the window; caller must hold w.mu.
 func (w *WaterMark) rebuildWindowLocked(index uint64, win *watermarkWindow) {
 	done := w.DoneUntil()
+	verifhook.Yield(w, "wm.rebuild.done-loaded")
 	newBase := done + 1
 	if index < newBase {
 		index = newBase
@@ -237,8 +256,10 @@ func (w *WaterMark) rebuildWindowLocked(index uint64, win *watermarkWindow) {
 		if offset >= uint64(size) {
 			continue
 		}
+		verifhook.Yield(win, "wm.rebuild.slot-read")
 		newSlots[offset].Store(count)
 	}
+	verifhook.Yield(win, "wm.rebuild.copied")
 	w.window.Store(&watermarkWindow{
 		base:  newBase,
 		slots: newSlots,
